@@ -347,6 +347,12 @@ class StreamReader:
             set_result(waiter, None)
 
     async def _wait(self, func_name: str) -> None:
+        # The exception may have been set after this reader was woken but
+        # before it ran (set_exception() then finds no waiter to fail): the
+        # reader comes back here with nothing to read and must not block.
+        if self._exception is not None:
+            raise self._exception
+
         if not self._protocol.connected:
             raise RuntimeError("Connection closed.")
 
